@@ -12,7 +12,7 @@ CONSTANTS Depth,    \* nesting depth of the enumerated hints
           Emit
 
 IntH == HCls("int")  StrH == HCls("str")  NoneH == HCls("NoneType")
-Leaves == { IntH, StrH, HAny, HLit(<<i1, sa>>), HCls("A"), HRec(IntH), HRec(StrH) }
+Leaves == { IntH, StrH, HAny, HLit(<<i1, sa>>), HCls("A"), HRecAlias(IntH), HRecAlias(StrH) }
 Wrap(h) == { HSeq("list", h), HSeq("tuple", h), HSeq("Sequence", h), HReit("Collection", h), HReit("frozenset", h),
              HReit("deque", h), HQuasi("Iterable", h), HMap("dict", StrH, h), HMap("Mapping", h, IntH),
              HTupF(<<IntH, h>>), HTupF(<<h, StrH>>), HUnion(<<h, NoneH>>), HUnion(<<StrH, h>>) }
@@ -20,7 +20,7 @@ RECURSIVE HintsAt(_)
 HintsAt(d) == IF d = 0 THEN Leaves ELSE UNION { Wrap(h) : h \in HintsAt(d - 1) }
 \* nested unions of unions add nothing new structurally beyond depth 1: drop union-of-union chains
 Interesting(h) == ~(h.k = "union" /\ \E i \in DOMAIN h.a : h.a[i].k = "union")
-RecHints == { HRec(IntH), HRec(StrH), HRec(HUnion(<<IntH, NoneH>>)), HRec(HCls("A")) }
+RecHints == { HRecAlias(IntH), HRecAlias(StrH), HRecAlias(HUnion(<<IntH, NoneH>>)), HRecAlias(HCls("A")) }
 HintSet == { h \in HintsAt(Depth) : Interesting(h) } \cup RecHints
 HintSeq == TLCEval(SetToSeq(HintSet))
 NHint == TLCEval(Len(HintSeq))
